@@ -41,8 +41,13 @@ type Proc struct {
 	err           error
 	probes        []*Obligation
 	pureDepth     int
+	heapReads     int
 	entryFacts    []*Term
 	lets          map[string]Val
+	cbAlias       map[*types.Var]*types.Var
+	assertFired   map[*Clause]bool
+	inDevirt      bool
+	lenient       bool
 	havocEpoch    int
 }
 
@@ -52,7 +57,7 @@ func newProc(c *Ctx, fi *FuncInfo) *Proc {
 		boxed: map[*types.Var]bool{}, capturedByRef: map[*types.Var]bool{},
 		closureOf: map[types.Object]*ClosureVal{}, rangeIdx: map[int]*types.Var{},
 		visited: map[int]*types.Var{}, visitedSort: map[*types.Var]Sort{},
-		nameCount: map[string]int{}, cbParams: map[string]*types.Var{}, lets: map[string]Val{}}
+		nameCount: map[string]int{}, cbParams: map[string]*types.Var{}, lets: map[string]Val{}, cbAlias: map[*types.Var]*types.Var{}, assertFired: map[*Clause]bool{}}
 }
 
 // ordinals: per root declaration, nodes numbered per syntactic category in source order.
@@ -284,11 +289,20 @@ func (p *Proc) Run() (err error) {
 	}
 	// assume preconditions
 	if p.contract != nil {
+		p.lenient = fi.Lit != nil
 		for _, cl := range p.contract.ByKind("requires") {
 			ec := p.exitEc(st)
 			ec.where = cl.Where
 			st.assume(p.eval(ec, cl.Expr).T)
 		}
+		// data-structure invariants assumed on entry (listed as assumptions, not proved by callers)
+		for _, cl := range p.contract.ByKind("assumes") {
+			ec := p.exitEc(st)
+			ec.where = cl.Where
+			st.assume(p.eval(ec, cl.Expr).T)
+			p.ctx.notes["data-structure invariant assumed on entry of "+p.fi.Name+": "+cl.Text] = true
+		}
+		p.lenient = false
 		p.closureEntryFacts(st)
 	}
 	p.entry = st.clone()
@@ -300,6 +314,13 @@ func (p *Proc) Run() (err error) {
 	}
 	if len(f.brk) > 0 || len(f.cont) > 0 {
 		p.failf(fi.Body(), "dangling break/continue")
+	}
+	if p.contract != nil {
+		for _, cl := range p.contract.ByKind("assert") {
+			if !p.assertFired[cl] {
+				p.failf(fi.Body(), "%s: contract-unbound: no call site %s", cl.Where, cl.Param)
+			}
+		}
 	}
 	return nil
 }
@@ -396,6 +417,11 @@ func (p *Proc) atExit(st *State, n ast.Node) {
 				g = Eq(cnt, IntLit(1))
 			case "at-most-once":
 				g = Le(cnt, IntLit(1))
+			case "if-result":
+				if len(results) == 0 || results[0].T.Sort != SBool {
+					p.failf(n, "%s: resolves if-result needs a boolean first result", cl.Where)
+				}
+				g = Ite(results[0].T, Eq(cnt, IntLit(1)), Eq(cnt, IntLit(0)))
 			default:
 				p.failf(n, "%s: unknown resolves mode %s", cl.Where, cl.Arg)
 			}
@@ -501,6 +527,10 @@ func (p *Proc) evalSpecCall(ec *ectx, name string, call *ast.CallExpr) (Val, boo
 		return Val{T: Sel(card, m.T), Typ: types.Typ[types.Int]}, true
 	case "spawned":
 		return Val{T: p.heapGet(ec.st, "G:$spawned", SInt), Typ: types.Typ[types.Int]}, true
+	case "handed":
+		return Val{T: p.heapGet(ec.st, "G:$handed", SInt), Typ: types.Typ[types.Int]}, true
+	case "invoked":
+		return Val{T: p.heapGet(ec.st, "G:$invoked", SInt), Typ: types.Typ[types.Int]}, true
 	case "spawncount":
 		return Val{T: p.heapGet(ec.st, "G:$spawncount", SInt), Typ: types.Typ[types.Int]}, true
 	case "resolved":
